@@ -1,6 +1,6 @@
 #!/bin/bash
 # usage: confirm-all.sh ID[:checks] ...
-for spec in "$@"; do id=${spec%%:*}; extra=""; [ "$spec" != "$id" ] && extra="checks=${spec#*:}"; for x in ${LETTERS:-C D E}; do [ -f /tmp/wt/out/$id/$x/patch.diff ] || continue; echo "=== $id-$x"; VERIF_ROOT=/tmp/verif-snap python3 /verif/selftest/confirm.py $id $x $extra 2>&1 | tail -1 | python3 -c "
+for spec in "$@"; do id=${spec%%:*}; extra=""; [ "$spec" != "$id" ] && extra="checks=${spec#*:}"; for x in ${LETTERS:-C D E}; do [ -f /tmp/wt/out/$id/$x/patch.diff ] || [ -f /verif/seeded/$id-$x/patch.diff ] || continue; echo "=== $id-$x"; VERIF_ROOT=/tmp/verif-snap python3 /verif/selftest/confirm.py $id $x $extra 2>&1 | tail -1 | python3 -c "
 import sys,json
 try:
   d=json.loads(sys.stdin.read())
